@@ -18,6 +18,13 @@ def main(chk: core.Check, replay):
     base = {}
     for r in recs:
         base.setdefault(modelcase.render_text(r["blocks"]), []).append(r)
+    # the expectations of a base model are emitted once (with its "indent" decoration)
+    for t, lst in base.items():
+        cases = [r["cases"] for r in lst if r["cases"]]
+        if not cases:
+            raise core.MachineryFailure("a base model without expectations")
+        for r in lst:
+            r["cases"] = cases[0]
     headed = [k for k in sorted(base) if 'expressions("M")' in k]
     split = [k for k in sorted(base) if 'expressions("' in k and k not in headed]
     other = [k for k in sorted(base) if 'expressions("' not in k]
